@@ -38,9 +38,10 @@ Ltac orbdec :=
 Ltac dec5 := first [ assumption | sqsum | orbdec | Rlit_norm_all; zfold; lra ].
 Ltac pyrun5 := pyrunH_using ltac:(hook2 dec5) dec5.
 
-(* Meeus 24 (reduction of ecliptical elements to another equinox), inclination >= 1 degree:
-   with f = Omega0 - Pi,  A = sin i0 sin f,  B = -sin eta cos i0 + cos eta sin i0 cos f:
-   i = asin sqrt(A^2+B^2),  Omega = atan2(A, B) + Pi + p,
+(* Meeus 24 (reduction of ecliptical elements to another equinox), inclination not (numerically) zero:
+   with f = Omega0 - Pi,  A = sin i0 sin f,  B = -sin eta cos i0 + cos eta sin i0 cos f,
+   C = cos i0 cos eta + sin i0 sin eta cos f:
+   i = atan2(sqrt(A^2+B^2), C) (0..180: retrograde orbits stay retrograde),  Omega = atan2(A, B) + Pi + p,
    omega = omega0 + atan2(-sin eta sin f, sin i0 cos eta - cos i0 sin eta cos f) *)
 Definition orb_out (eta pie p i0 w0 o0 : R) : R * R * R :=
   let ET := d2r (dms_sec eta) in
@@ -49,20 +50,13 @@ Definition orb_out (eta pie p i0 w0 o0 : R) : R * R * R :=
   let F := d2r o0 - PR in
   let a := sin IR * sin F in
   let b := - sin ET * cos IR + cos ET * sin IR * cos F in
-  (red360 (r2d (asin (sqrt (a * a + b * b)))),
+  let c := cos IR * cos ET + sin IR * sin ET * cos F in
+  (red360 (r2d (atan2 (sqrt (a * a + b * b)) c)),
    red360 (w0 + red360 (r2d (atan2 (- sin ET * sin F) (sin IR * cos ET - cos IR * sin ET * cos F)))),
    red360 (red360 (red360 (r2d (atan2 a b)) + pie_deg pie) + dms_sec p)).
 
-Theorem orb_closed J j0 j1 i0 w0 o0 : g_JDE2000 Rops = ep J -> 1 <= i0 ->
-  let T := cen J j0 in let t := cen j0 j1 in
-  let o := orb_out (eta_as T t) (pi_as T t) (p_as T t) i0 w0 o0 in
-  f_orbital_equinox2equinox Rops (ep j0) (ep j1) (ang i0) (ang w0) (ang o0)
-  = VTuple [ang (fst (fst o)); ang (snd (fst o)); ang (snd o)].
-Proof.
-  intros HJ Hi T t o. pyrun5.
-  rewrite Lpi0_eq.
-  replace ((j1 - j0) / Rlit 365250 (-1)) with t by (unfold t, cen; Rlit_norm; field).
-  replace ((j0 - J) / Rlit 365250 (-1)) with T by (unfold T, cen; Rlit_norm; field).
+Ltac orb_polys T t :=
+  rewrite ?Lpi0_eq;
   repeat match goal with
   | |- context [dms_sec ?e] =>
       lazymatch e with
@@ -70,5 +64,46 @@ Proof.
       | _ => first [ poly_to e (eta_as T t) | poly_to e (pi_as T t) | poly_to e (p_as T t) ]
       end
   end.
+
+(* the general branch is taken whenever |i0| is at least the Angle tolerance 1e-10 *)
+Theorem orb_closed J j0 j1 i0 w0 o0 : g_JDE2000 Rops = ep J -> tol0 <= Rabs i0 ->
+  let T := cen J j0 in let t := cen j0 j1 in
+  let o := orb_out (eta_as T t) (pi_as T t) (p_as T t) i0 w0 o0 in
+  f_orbital_equinox2equinox Rops (ep j0) (ep j1) (ang i0) (ang w0) (ang o0)
+  = VTuple [ang (fst (fst o)); ang (snd (fst o)); ang (snd o)].
+Proof.
+  intros HJ Hi T t o.
+  assert (Hi' : tol0 <= Rabs (i0 - Rlit 0 (-1))).
+  { replace (i0 - Rlit 0 (-1)) with i0 by (Rlit_norm; lra). exact Hi. }
+  pyrun5.
+  replace ((j1 - j0) / Rlit 365250 (-1)) with t by (unfold t, cen; Rlit_norm; field).
+  replace ((j0 - J) / Rlit 365250 (-1)) with T by (unfold T, cen; Rlit_norm; field).
+  orb_polys T t.
+  reflexivity.
+Qed.
+
+(* the exact-zero branch (|i0| below the Angle tolerance): i = eta, Omega = Pi + p + 180 *)
+Definition orb_out0 (eta pie p w0 o0 : R) : R * R * R :=
+  let ET := d2r (dms_sec eta) in
+  let PR := d2r (pie_deg pie) in
+  let F := d2r o0 - PR in
+  (dms_sec eta,
+   red360 (w0 + red360 (r2d (atan2 (- sin ET * sin F) (sin (d2r 0) * cos ET - cos (d2r 0) * sin ET * cos F)))),
+   red360 (red360 (pie_deg pie + dms_sec p) + 180)).
+
+Theorem orb_closed0 J j0 j1 w0 o0 : g_JDE2000 Rops = ep J ->
+  let T := cen J j0 in let t := cen j0 j1 in
+  let o := orb_out0 (eta_as T t) (pi_as T t) (p_as T t) w0 o0 in
+  f_orbital_equinox2equinox Rops (ep j0) (ep j1) (ang 0) (ang w0) (ang o0)
+  = VTuple [ang (fst (fst o)); ang (snd (fst o)); ang (snd o)].
+Proof.
+  intros HJ T t o.
+  assert (Hi' : Rabs (0 - Rlit 0 (-1)) < tol0).
+  { replace (0 - Rlit 0 (-1)) with 0 by (Rlit_norm; lra). rewrite Rabs_R0. unfold tol0. Rlit_norm. lra. }
+  pyrun5.
+  replace ((j1 - j0) / Rlit 365250 (-1)) with t by (unfold t, cen; Rlit_norm; field).
+  replace ((j0 - J) / Rlit 365250 (-1)) with T by (unfold T, cen; Rlit_norm; field).
+  orb_polys T t.
+  replace (Rlit 1800 (-1)) with 180 by (Rlit_norm; lra).
   reflexivity.
 Qed.
